@@ -50,6 +50,7 @@ def check(model, tier):
 
     _bounds.r06_7_bound_formulas(ctx, rule="R02.10")
     sqlplace.r_inner_calculation_name(ctx, "R02.11")
+    sqlemit.r_select_list_order(ctx, "R02.12")
     from ..rules.foundation import run_foundation
 
     run_foundation(ctx, "02")
